@@ -212,6 +212,16 @@ def apply(S, op):
     for name, impl, model in (('cache', dict(dict.items(c)), S.mc), ('archive', contents(S.A), S.mA), ('second archive', contents(S.B), S.mB)):
         for p in compare_contents(impl, model, '%s after %r' % (name, op)):
             bad('contents', p, what=name)
+    # a persistent archive as another connection sees it (what has really reached the store)
+    if BACKENDS[S.backend][0] in archmc.PERSISTENT:
+        try:
+            h = open_backend(S.backend, S.root, 'arch', False)
+            fc = contents(h)
+            archmc.close(h)
+        except Exception as e:
+            fc = e
+        for p in compare_contents(fc, S.mA, 'archive as seen by a fresh handle after %r' % (op,)):
+            bad('contents', p, what='archive-through-fresh-handle')
     # which archive is attached
     try:
         a = c.archive
